@@ -75,7 +75,8 @@ class C18(Suite):
     id = "C18"
     props_module = "Cpppo.Props.C18"
     rule = ("histories of 1-4 rotated files (1-4 records each, equal and increasing timestamps, comments, blank "
-            "lines, corrupt-timestamp lines, unusable payloads, gz/bz2 copies with or without the plain file) x "
+            "lines, corrupt-timestamp lines, unusable payloads, gz/bz2 copies with or without the plain file, files "
+            "logged in several logger sessions: close/re-open, buffering() changes, a second logger on the path) x "
             "start point x look-ahead x factor x load schedule (with limit/upcoming; first calls at, after or before the "
             "wall-clock basis at which the start point is scheduled): exhaustive over small shapes "
             "plus seeded random, plus a malformed stream (empty files, corrupt first lines, disordered timestamps, "
@@ -146,6 +147,11 @@ class C18(Suite):
             yield {"files": [{"ext": ".0", "lines": [["c"], R(1000, 1), R(1010, 2), ["x", k], R(1020, 3)]},
                              {"ext": "", "lines": [R(1030, 4), ["r", 1035, "cut"], R(1040, 5)]}],
                    "hist": 990, "loads": step(990, 8), "scale": 100}
+        # the logger re-opens the file it is logging to, in each of the ways it can
+        for how in ("close", "line", "sized", "new"):
+            yield {"files": [{"ext": ".0", "lines": [R(1000, 1), R(1010, 2), R(1020, 3)], "sessions": [[2, how]]},
+                             {"ext": "", "lines": [R(1030, 4), ["c"], R(1040, 5), R(1050, 6)], "sessions": [[1, how], [3, "default"]]}],
+                   "hist": 990, "loads": step(990, 9), "scale": 100}
         # the start point (1100) is scheduled 3 wall-clock seconds (30 ticks at factor 10) after the first call
         yield {"files": [{"ext": "", "lines": [["r", 1000, {"40001": 1, "40002": 5}], R(1090, 2), R(1096, 6, 40002), R(1110, 3)]}],
                "hist": 1100, "factor": [10, 1], "loads": [[1070 + 2 * i, None, None] for i in range(26)], "scale": 1000}
@@ -210,6 +216,9 @@ class C18(Suite):
             if rng.random() < 0.1:
                 lines.append(rng.choice([["c"], ["x", rng.randrange(NCORRUPT)]]))
             f = {"ext": exts[nf - 1 - i], "lines": lines}
+            if len(lines) > 1 and rng.random() < 0.25:     # the logger re-opens the file while it is being written
+                f["sessions"] = sorted([j, rng.choice(["close", "line", "sized", "default", "new"])]
+                                       for j in rng.sample(range(1, len(lines)), min(len(lines) - 1, rng.choice([1, 1, 2]))))
             if (f["ext"] or (malformed and rng.random() < 0.1)) and rng.random() < 0.3:
                 f["copies"] = rng.choice([[".gz"], [".bz2"], [".gz", ".bz2"]])
                 if rng.random() < 0.4:
@@ -349,10 +358,24 @@ class C18(Suite):
         k = 0
         for f in case["files"]:
             fn = path + f["ext"]
-            with hf.logger(fn) as l:
+            # "sessions": [[line index, how], ...] = before that line the logger re-opens the file it is logging to
+            # (how: "close" = close(), the next write opens again; "line"/"sized"/"default" = buffering() of an open
+            # logger; "new" = another logger object carries on with the same path).  The history is still what
+            # was logged: the file content, hence the model line, does not depend on it.
+            sessions = {j: how for j, how in f.get("sessions", [])}
+            l = hf.logger(fn)
+            try:
                 if not f["lines"]:
                     l.open()
-                for ln in f["lines"]:
+                for j, ln in enumerate(f["lines"]):
+                    how = sessions.get(j)
+                    if how == "close":
+                        l.close()
+                    elif how == "new":
+                        l.close()
+                        l = hf.logger(fn)
+                    elif how:
+                        l.buffering({"line": "line", "sized": 4096, "default": None}[how])
                     k += 1
                     if ln[0] == "r":
                         # what the logger is given carries sub-millisecond noise; the file holds milliseconds
@@ -367,6 +390,8 @@ class C18(Suite):
                         l._append("   \t \n" if len(ln) > 1 and ln[1] else "\n")
                     else:
                         l._append(CORRUPT[(ln[1] if len(ln) > 1 else 0) % NCORRUPT], encoding="latin-1")
+            finally:
+                l.close()
             for c in f.get("copies", []):
                 with hf.opener(fn + c, mode="wb") as fd:
                     with open(fn, "rb") as rd:
@@ -569,9 +594,14 @@ class C18(Suite):
         for i, f in enumerate(c["files"]):
             for j in range(len(f["lines"])):
                 g = {**f, "lines": f["lines"][:j] + f["lines"][j + 1:]}
+                if f.get("sessions"):
+                    g["sessions"] = [[jj - (jj > j), how] for jj, how in f["sessions"]]
                 yield {**c, "files": c["files"][:i] + [g] + c["files"][i + 1:]}
             if f.get("copies"):
                 g = {k: v for k, v in f.items() if k not in ("copies", "unlink")}
+                yield {**c, "files": c["files"][:i] + [g] + c["files"][i + 1:]}
+            if f.get("sessions"):
+                g = {k: v for k, v in f.items() if k != "sessions"}
                 yield {**c, "files": c["files"][:i] + [g] + c["files"][i + 1:]}
         for i in range(len(c["loads"])):
             if len(c["loads"]) > 1 and i > 0:
